@@ -773,6 +773,11 @@ func (f *FeatureReferencesByID) FindReferences(id b6.FeatureID, typed ...b6.Feat
 
 func (f *FeatureReferencesByID) AddFeature(feature Feature) {
 	for index, reference := range feature.References() {
+		// Paths can mix references with literal points, so the position of
+		// a reference in the path isn't its position among the references.
+		if indexed, ok := reference.(b6.IndexedReference); ok {
+			index = indexed.Index()
+		}
 		references, ok := (*f)[reference.Source()]
 		if !ok {
 			references = make([]b6.Reference, 0, 1)
